@@ -141,7 +141,7 @@ theorem listen_recvFinished (c : Cfg) (s : S) (h : listenOk s.streams = true) :
 
 theorem listen_setupRetry (c : Cfg) (s : S) (eos : Bool) (h : listenOk s.streams = true) :
     listenOk (setupRetry c s eos).1.streams = true := by
-  unfold setupRetry
+  rw [setupRetry_eq]
   split
   · exact h
   · simp only
@@ -171,7 +171,7 @@ theorem listen_onUpstreamReset (c : Cfg) (s : S) (h : listenOk s.streams = true)
   · split
     · -- setupRetry with eos = true never resets the upstream stream
       have : ∀ x : S, (setupRetry c x true).1.streams = x.streams := by
-        intro x; unfold setupRetry; split <;> simp
+        intro x; rw [setupRetry_eq]; split <;> simp
       split
       · rename_i hs; have := this (rsRetry c s (some s.resetReason)).1; rw [hs] at this; simp at this; simpa [this] using h
       · rename_i hs; have := this (rsRetry c s (some s.resetReason)).1; rw [hs] at this
@@ -454,6 +454,23 @@ theorem not_cleaned_facts {c : Cfg} {ar aq : Nat} {s : S} (h : Inv c ar aq s) (h
 
 /-! ### the labels of other goroutines -/
 
+theorem inv2_terminate (c : Cfg) (s : S) (code : Nat) (h2 : Inv2 c s) : Inv2 c (terminateL c s code) := by
+  rw [terminateL_eq]
+  unfold terminateAcc
+  split
+  · exact h2
+  split
+  · exact h2
+  split
+  · exact h2
+  split
+  · exact h2
+  · refine ⟨by simpa using listenOk_resetUpstream c s h2.listen, fun how hq => ?_⟩
+    exfalso
+    rw [quietS_iff] at hq
+    have := hq.2.2.1
+    simp at this
+
 theorem inv2_async (c : Cfg) (ar aq : Nat) (s : S) (l : Label) (hl : l ≠ .work) (h : Inv c ar aq s) (h2 : Inv2 c s) :
     Inv2 c (step c s l) := by
   cases l with
@@ -633,21 +650,17 @@ theorem inv2_async (c : Cfg) (ar aq : Nat) (s : S) (l : Label) (hl : l ≠ .work
       rw [quietS_iff] at hq
       have := hq.2.2.2.2
       simp [dsOnResetStream] at this
-  | terminate code =>
-    simp only [step, terminateL]
+  | terminate code => exact inv2_terminate c s code h2
+  | terminateStale g code =>
+    simp only [step]
+    rw [terminateStale_eq]
     split
+    · exact inv2_terminate c s code h2
     · exact h2
-    split
-    · exact h2
-    split
-    · exact h2
-    split
-    · exact h2
-    · refine ⟨by simpa using listenOk_resetUpstream c s h2.listen, fun how hq => ?_⟩
-      exfalso
-      rw [quietS_iff] at hq
-      have := hq.2.2.1
-      simp at this
+  | terminateRaced code k d t =>
+    simp only [step]
+    rw [terminateRaced_eq]
+    exact inv2_terminate c s code h2
 
 end MosnVerif.Model.Downstream
 
@@ -805,7 +818,7 @@ theorem headersFinish_phase (c : Cfg) (s : S) (eos : Bool) : (onUpstreamHeadersF
   split <;> simp
 
 theorem setupRetry_phase (c : Cfg) (s : S) (eos : Bool) : (setupRetry c s eos).1.phase = s.phase := by
-  unfold setupRetry; split
+  rw [setupRetry_eq]; split
   · rfl
   · simp only; split <;> simp
 
